@@ -24,7 +24,7 @@ RULE = ("trees and lone files x output directory {absolute fresh, relative to th
         "nested/parent, and a tree with >=2 directories; distinct by SHA-1 of the case")
 ASSUMPTIONS = ["the in-process runner captures sys.stdout/sys.stderr including logging handlers bound at configuration time",
                "creating missing ancestors of the output directory is part of creating the output directory"]
-BUDGET = {"quick": {"shards": 4, "examples": 100}, "thorough": {"shards": 16, "examples": 1200}}
+BUDGET = {"quick": {"shards": 8, "examples": 80}, "thorough": {"shards": 16, "examples": 1200}}
 
 HEADER_POOL = list("#*=-_~!&@^+")
 
